@@ -450,6 +450,8 @@ def classify_failure(entries, values=None, back=None):
 
 
 def _classify_failure(entries):
+    if any(x.endswith("\x00") for x in _text_leaves(entries)):
+        return "string-trailing-nul-stripped"
     kinds = set()
     forms = set()
     has_none = any(e[0] == "n" for e in entries)
@@ -645,12 +647,56 @@ def gen_case(rng):
     return ents
 
 
+def _text_leaves(ents):
+    for e in ents:
+        if e[0] == "s" and isinstance(e[3], str):
+            yield e[3]
+        elif (e[0] == "a" and e[1] == "str") or (e[0] == "l" and e[2] == "str"):
+            yield from (x for x in e[3] if isinstance(x, str))
+        elif e[0] == "m" and e[2] == "str":
+            yield from (x for r in e[3] for x in r if isinstance(x, str))
+        elif e[0] == "d":
+            yield from (k for k, _ in e[1])
+
+
+def _exotic_text(x):
+    return any(ord(ch) > 127 or ch == "\x00" for ch in x)
+
+
+EXOTIC_STRS = ["é", "naïve", "日本", "Ω1", "a\u00a0b", "ab\x00", "a\x00b", "\x00", "tab\tx", "  lead", "trail  ", "x" * 300,
+               "@/c1/VObj/p", "<!None!>", "", "nan", "None"]
+
+
+def gen_text(rng):
+    """string-valued parameters beyond plain ASCII words (oracle only): non-ASCII characters (h5py byte strings refuse
+    them), NUL characters, leading / trailing blanks, long strings, strings that look like the attribute link marker or
+    the None marker; as scalars, as fixed-shape arrays, as dict keys; with and without None"""
+    form = rng.choice(["scalars", "scalars", "scalars+none", "arrays", "dictkeys", "np scalars"])
+    pool = EXOTIC_STRS + STRS
+    n = rng.randint(1, 5)
+    if form == "dictkeys":
+        out = []
+        for _ in range(n):
+            ks = rng.sample(pool, rng.randint(0, 3))
+            out.append(("d", [(k, float(rng.randint(-4, 4)) + 0.5) for k in ks]))
+        return out
+    if form == "arrays":
+        m = rng.randint(1, 3)
+        return [("a", "str", (m,), [rng.choice(pool) for _ in range(m)]) for _ in range(n)]
+    out = [("s", form == "np scalars", "str", rng.choice(pool)) for _ in range(n)]
+    if form == "scalars+none":
+        out.insert(rng.randrange(len(out) + 1), ("n",))
+    return out
+
+
 def in_model_domain(ents):
     """one leaf dtype (python/numpy flavour irrelevant except for scalars), python containers only of python
     leaf kinds, dict only with dict/None, arrays well-formed"""
     dts = {(e[2] if e[0] in ("s", "l", "m") else e[1]) for e in ents if e[0] in ("s", "a", "l", "m")}
     if len(dts) > 1:
         return False
+    if any(_exotic_text(x) for x in _text_leaves(ents)):
+        return False            # non-ASCII / NUL characters: h5py's fixed-width byte strings are a parameter (oracle only)
     if any(e[0] == "d" for e in ents) and any(e[0] not in ("d", "n") for e in ents):
         return False
     for e in ents:
@@ -696,6 +742,8 @@ EXCLUDED_POINTS = [
     ("empty among ragged", [("l", False, "i64", [1, 2]), ("l", False, "i64", []), ("l", False, "i64", [3])]),
     ("float NaN + None", [("s", False, "f64", 1.0), ("s", False, "f64", float("nan")), ("n",)]),
     ("float32 + None", [("s", True, "f32", 1.5), ("n",)]),
+    ("str ending in a NUL character", [("s", False, "str", "ab\x00"), ("s", False, "str", "c")]),
+    ("dict key ending in a NUL character", [("d", [("a\x00", 1.0)]), ("d", [("b", 2.0)])]),
 ]
 
 
@@ -1140,8 +1188,29 @@ def run_values(ctx, h5file):
         if f is not None:
             ctx.fail(f.key, f.clause, f.case, f.observed, f.expected)
         ctx.case(wire(ents), nontrivial=True)
-    model = lean_run("Pack", req)
+    for i in range(ctx.pick(400, 5000)):
+        ents = gen_text(rng)
+        if not ents:
+            continue
+        values = [to_py(e) for e in ents]
+        res = stack.roundtrip(h5file, values)
+        f = oracle(ctx, ents, values, res, "text (oracle only)")
+        if f is not None:
+            ctx.fail(f.key, f.clause, f.case, f.observed, f.expected)
+        ctx.case(("text", repr(ents)), nontrivial=True)
+    # the hypotheses of the main theorem (write_read_decided: domainOf, noSentinelB) evaluated BY THE MODEL on every value
+    # list of the correspondence stream, in the same driver process
+    both = lean_run("Pack", req + ["domain " + q.split(" ", 1)[1] for q in req])
+    model, dom = both[: len(req)], both[len(req):]
     nd = ctx.compare("Model/Pack.lean writeParam/readParam vs Database._writeParams/_readParams", cases, model, impl)
+    for m, dm, im in zip(model, dom, impl):
+        hyp = "dict list (dict_roundtrip)" if dm == "dict" else "outside (mixed scalar flavours / dtypes)" if dm == "out" else \
+            ("EntryWF + NoSentinel hold" if dm.endswith(" T") else "EntryWF holds, a value equals the None sentinel next to a None")
+        ctx.count(f"main theorem hypotheses: {hyp}; real outcome {im.split(' ')[0]}")
+        if dm.startswith("wf") and m == "ood":
+            raise common.Infra("in_domain_decided contradicted by the executable model (driver bug)")
+        if dm.startswith("wf") and dm.endswith(" T") and im.startswith("ok"):
+            ctx.count("value lists accepted by the real writer under the hypotheses of write_read_decided")
     for m in model:
         ctx.count("model outcome: " + m.split(" ")[0] + (" " + m.split(" ")[1].split(":")[0] if m.startswith(("ok", "readfail")) else ""))
     if any(m == "ood" for m in model):
